@@ -177,6 +177,8 @@ impl DifficultyValues {
             &mut n_diff_objects,
             difficulty.get_mods(),
         );
+        #[cfg(rosu_pp_verif)]
+        crate::verif::view_probe::report(0, 1, diff_objects.objects.len(), &[]);
 
         // The first hit object has no difficulty object
         n_diff_objects = n_diff_objects.saturating_sub(1);
